@@ -61,6 +61,8 @@ def adjacency(gc):
     adj = {u: [] for u in nodes}
     for e in gc['edges']:
         u, v = tolabel(e[0]), tolabel(e[1])
+        if u == v:
+            continue            # a self-loop is part of the graph given to EoN but no node can act on itself
         if v not in adj[u]:
             adj[u].append(v)
         if not gc.get('directed') and u not in adj[v]:
